@@ -71,5 +71,54 @@ Print Assumptions C02_spfs_root_orders_optimum.
 Print Assumptions C02_table_value.
 Print Assumptions C02_ocost_ecost_ord.
 
-(* non-vacuity *)
+(** ** the totalisation defaults are never taken (each lemma excludes one default) *)
+
+(* [cost_of c O lt] is [total_cost c O true lt] with [None] (the evaluator's assertion fails) read as
+   +inf.  The evaluator is defined on every valid labelling, so on every solution ([valid_ordered]
+   contains [valid_lab]) [cost_of] is the evaluator's value, never the default ... *)
+Theorem C02_evaluator_defined_on_valid : forall c S O t, valid_lab S O t -> exists v, total_cost c O true t = Some v.
+Proof. exact total_cost_some. Qed.
+Print Assumptions C02_evaluator_defined_on_valid.
+
+(* ... and on every RETURNED solution it is the value of the result (any policy, any unit costs);
+   that this value is finite is [C04_finite_ordered] *)
+From SR Require Import Proofs.AllAnyProofs.
+Theorem C02_returned_cost : forall S c rp extended orders O e lt, nn (c_hgt c) -> orders_ok S O orders ->
+  spfs S c rp extended orders O = Some e -> In lt (tags e) ->
+  total_cost c O true lt = Some (val e) /\ cost_of c O lt = val e.
+Proof. exact spfs_returned_cost. Qed.
+Print Assumptions C02_returned_cost.
+
+(* [Spfs.root_orders O = None] would be a raised exception in [_make_prec_graph] / [toposort_all] (and
+   [PolyProofs.orders_of] reads it as "no order").  It does not happen when every leaf synteny is
+   non-empty: the enumeration returns a list (possibly empty: no compatible order), made of well-formed
+   orders that fit the root *)
+Theorem C02_root_orders_total : forall S O, leaves_wf S O -> exists orders, Spfs.root_orders O = Some orders.
+Proof. exact root_orders_total. Qed.
+Print Assumptions C02_root_orders_total.
+
+Theorem C02_root_orders_ok : forall S O orders, leaves_wf S O -> Spfs.root_orders O = Some orders ->
+  orders_ok S O orders /\ forall ord, In ord orders -> root_fits O ord.
+Proof. exact root_orders_ok. Qed.
+Print Assumptions C02_root_orders_ok.
+
+(* [spfs ... = None] would be an IndexError while decoding or a failed assertion of the evaluator:
+   [C02_spfs_returns] above excludes it for every policy and every cost vector *)
+
+(* non-vacuity: [nn], [coherent_ord], [leaves_wf], the root orders, 3 / 1 optimal solutions *)
 Example C02_example := spfs_example.
+
+(* [orders_ok] itself, and a prescribed root order with a family no leaf carries *)
+Example C02_example_orders :
+  let S := SNode SLeaf (SNode SLeaf SLeaf) in
+  let O := ONode (OLeaf [false] [1; 2]%N) (ONode (OLeaf [true; false] [2; 3]%N) (OLeaf [true; true] [1; 3]%N)) in
+  let c := {| c_spe := 0; c_dup := 1; c_hgt := Fin 1; c_floss := 1; c_sloss := 1 |} in
+  orders_ok S O [[1; 2; 3]%N] /\ orders_ok S O [[1; 4; 2; 3]%N] /\
+  option_map (fun e => length (tags e)) (spfs S c RALL true [[1; 4; 2; 3]%N] O) = Some 3%nat.
+Proof.
+  cbv zeta. split; [|split; [|vm_compute; reflexivity]].
+  - refine (proj1 (root_orders_ok _ _ _ _ _)); [cbn; repeat split; discriminate|vm_compute; reflexivity].
+  - intros ord [<-|[]]. split.
+    + repeat constructor; cbn; intuition discriminate.
+    + cbn. repeat split; try discriminate; repeat constructor.
+Qed.
